@@ -21,6 +21,18 @@ by value and structural, never by object identity.  At the end of a history ever
 complex model is rendered into an XML schema and serialized through XmlDocument and the dict
 protocol (field order, occurrence constraints), and (sampled in quick, always in thorough)
 the history is replayed in fresh interpreters under three PYTHONHASHSEED values.
+
+Signatures
+  C15|aliasing|<op>|<attr | fields | extends | verdict | type_name | namespace>|<bystander>
+        bystander = source (an operand or a type it is built of) / sibling-derivative /
+        referrer / component-derivative / unrelated / variant-of-related-class (append/insert:
+        a customized variant of a class that is only related by inheritance got the field)
+  C15|derived-wrong|<op>|<attr | fields | extends | verdict | type_name | identity>
+  C15|propagation-missing|<op>      a class customized from the target did not get the field
+  C15|field-order|<type_info | flat | flat-content | schema | xml | dict | ...-content>
+  C15|schema-mismatch|<fields | minOccurs | maxOccurs | nillable | base>
+  C15|hashseed|<models | field-order-own | -flat | -xml | -dict | schema>
+  C15|escaped|<ExcType>|<file:function>|<op>
 """
 import datetime as dtm
 import decimal
@@ -41,7 +53,9 @@ PROPERTY = "C15"
 RULE = ("case = history of 4-30 operations (primitive customisation with generated facets, "
         "customize(**attrs), child_attrs / child_attrs_all (incl. inherited and not-yet-existing "
         "fields), Array / Iterable / Array(wrapped=False) / customize(max_occurs), Mandatory, new "
-        "class, subclass, append_field / insert_field) drawn as one JSON value; operands refer to "
+        "class, subclass, append_field / insert_field) drawn as one JSON value by Hypothesis, plus "
+        "the exhaustive enumeration of all 2-step (thorough: 3-step) continuations of a base+"
+        "subclass pair over a 24-operation alphabet; operands refer to "
         "earlier pool entries by index (modulo the eligible entries). After EVERY step every class "
         "reachable from the pool is snapshotted (public Attributes, ordered fields, parent, "
         "verdicts of validate_string/validate_native on a probe set) and compared with a "
@@ -264,10 +278,6 @@ class Node(object):
     def describe(self):
         return "#%d[%s %s via %s @step%s]" % (self.id, self.kind, self.label or self.tn,
                                               self.how, self.born)
-
-
-GENERIC_KEYS = ("nillable", "min_occurs", "max_occurs", "sub_name", "doc", "empty_is_none",
-                "validate_freq", "type_name", "default")
 
 
 def dec_kw(kw):
@@ -1259,11 +1269,6 @@ def observe(case):
     m = Machine(oracle=True)
     m.run(case.get("steps") or [])
     return m.final_observation()
-
-
-def _digest(obs):
-    return hashlib.blake2b(json.dumps(obs, sort_keys=True, default=str).encode(),
-                           digest_size=8).hexdigest()
 
 
 def replay_under_seeds(cases):
